@@ -211,6 +211,14 @@ def body_for(bsel, rid):
         return b"{}", []  # JSON, but no message
     if bsel == 8:
         return b'"just a string"', []
+    if bsel == 9:  # a JSON-RPC error object under a placeholder id (what some servers send with 400/404/406)
+        m = {"jsonrpc": "2.0", "id": "server-error", "error": {"code": -32600, "message": "bad request"}}
+        return _json.dumps(m).encode(), [m]
+    if bsel == 10:  # ... with a null id: no JSON-RPC message for anybody
+        return _json.dumps({"jsonrpc": "2.0", "id": None, "error": {"code": -32600, "message": "bad request"}}).encode(), []
+    if bsel == 11:  # ... quoting the request's own id
+        m = {"jsonrpc": "2.0", "id": rid, "error": {"code": -32001, "message": "denied", "data": {"k": None}}}
+        return _json.dumps(m).encode(), [m]
     raise HarnessError("bsel")
 
 
